@@ -224,16 +224,23 @@ def _r18_1(ctx, run, rule='R18.1'):
                     # any other test of the float value (e.g. `v == 0.0`) splits the finite class
                     if any(s[0] == 'downcast' and s[2] == 'Float64' for s in subterms(t)):
                         extra.append(c)
+            # the float classes the predicates tested on this path leave possible
+            ALL = {'nan+', 'nan-', 'inf+', 'inf-', 'fin+', 'fin-'}
+            SETS = {'is_nan': {'nan+', 'nan-'}, 'is_infinite': {'inf+', 'inf-'}, 'is_finite': {'fin+', 'fin-'},
+                    'is_sign_negative': {'nan-', 'inf-', 'fin-'}, 'is_sign_positive': {'nan+', 'inf+', 'fin+'}}
+            S = set(ALL)
+            for pn, pv in preds.items():
+                S &= SETS[pn] if pv else (ALL - SETS[pn])
             cls = None
-            if preds.get('is_nan') is True:
-                cls = 'nan'
-            elif preds.get('is_nan') is False and preds.get('is_infinite') is True:
-                neg = preds.get('is_sign_negative')
-                if neg is None and preds.get('is_sign_positive') is not None:
-                    neg = not preds['is_sign_positive']
-                cls = 'neg_inf' if neg is True else ('inf' if neg is False else 'inf?')
-            elif preds.get('is_nan') is False and preds.get('is_infinite') is False:
-                cls = 'finite'
+            if preds and S:
+                if S <= {'nan+', 'nan-'}:
+                    cls = 'nan'
+                elif S <= {'inf+'}:
+                    cls = 'inf'
+                elif S <= {'inf-'}:
+                    cls = 'neg_inf'
+                elif S <= {'fin+', 'fin-'}:
+                    cls = 'finite'
             exp = {'nan': [('bytes', (tags['NUMBER_NAN'],))], 'inf': [('bytes', (tags['NUMBER_INF'],))],
                    'neg_inf': [('bytes', (tags['NUMBER_NEG_INF'],))]}
             if cls in exp:
@@ -263,6 +270,14 @@ def _r18_1(ctx, run, rule='R18.1'):
                 conds = '; '.join(f'{show(c[0])} = {c[2]}' for c in extra) or str(preds)
                 run.violation(rule, b.path, 'arm[Float64 short-form]', f'floats satisfying [{conds}] are written as {chunks}: a float may only be written as NUMBER_NAN, NUMBER_INF, NUMBER_NEG_INF '
                               f'or NUMBER_FLOAT + its 8 bytes; any other form does not decode to the same float (variant, sign of zero, bits)', loc, hard=True)
+            elif preds and not extra and S and chunks and chunks[0][0] == 'bytes' and len(chunks) == 1 and chunks[0][1] in ((tags['NUMBER_NAN'],), (tags['NUMBER_INF'],), (tags['NUMBER_NEG_INF'],)):
+                # a one-byte form chosen for a set of float classes wider than the one the tag stands for
+                tagname = {tags['NUMBER_NAN']: 'NUMBER_NAN', tags['NUMBER_INF']: 'NUMBER_INF', tags['NUMBER_NEG_INF']: 'NUMBER_NEG_INF'}[chunks[0][1][0]]
+                allowed = {'NUMBER_NAN': {'nan+', 'nan-'}, 'NUMBER_INF': {'inf+'}, 'NUMBER_NEG_INF': {'inf-'}}[tagname]
+                names = {'nan+': 'NaN', 'nan-': 'NaN with the sign bit set', 'inf+': '+infinity', 'inf-': '-infinity', 'fin+': 'finite non-negative floats', 'fin-': 'finite negative floats'}
+                extra_cls = sorted(S - allowed)
+                run.violation(rule, b.path, f'arm[Float64 {tagname}]', f'the tests on this path ({preds}) leave {", ".join(names[x] for x in sorted(S))} possible and all of them are written as {tagname}: '
+                              f'{", ".join(names[x] for x in extra_cls)} would decode as a different number', loc, hard=True)
             elif preds or extra:
                 conds = '; '.join(f'{show(c[0])} = {c[2]}' for c in extra) or str(preds)
                 run.undecided(rule, b.path, 'arm[Float64 unclassified]', f'floats satisfying [{conds}] are written as {chunks}; the tests on this path do not classify the float as nan / infinite / finite '
@@ -285,7 +300,8 @@ def _r18_1(ctx, run, rule='R18.1'):
     for need in (('Int64', 'i8'), ('Int64', 'i16'), ('Int64', 'i32'), ('Int64', 'i64'), ('UInt64', 'u8'), ('UInt64', 'u16'), ('UInt64', 'u32'), ('UInt64', 'u64'),
                  ('Float64', 'f64'), ('Float64', 'nan'), ('Float64', 'inf'), ('Float64', 'neg_inf')):
         if need not in table:
-            run.violation(rule, b.path, f'arm[{need[0]} as {need[1]}]', 'this width/class arm was not found (anchor lost)', f'{b.file}:{b.line}')
+            run.undecided(rule, b.path, f'arm[{need[0]} as {need[1]}]', 'this width/class arm was not recognised among the success paths (anchor lost): how such values are written is not decided here '
+                          '(a wrong form on a recognised path is reported separately)', f'{b.file}:{b.line}')
     run.floor(rule, 'compact_encode success paths', npaths, 14)
     return table
 
@@ -659,6 +675,40 @@ def const_outcomes(ctx, run, rule, cone):
         if ity not in INT_RANGES or str(b.local_ty(2).get('s')) != 'f64' or not str(b.local_ty(0).get('s', '')).endswith('cmp::Ordering'):
             continue
         tmin, tmax = INT_RANGES[ity]
+        if ity in ('i128', 'u128'):
+            # wider than any stored number: the values that actually arrive are those of the callers' arguments
+            # (`i128::from(i64)`, `i128::from(u64)`, widening casts): the union of their source types' ranges
+            lo_, hi_, unknown = None, None, False
+            for pc, bc in f.bodies.items():
+                if bc.kind == 'Promoted':
+                    continue
+                for _, t_ in bc.calls():
+                    if canon(callee_name(t_)) != canon(p) or not t_.get('args'):
+                        continue
+                    a0 = t_['args'][0]
+                    src_ty = None
+                    if a0['k'] in ('copy', 'move') and not a0['place'].get('proj'):
+                        l0 = a0['place']['local']
+                        from mir import defs as _defs
+                        for site in _defs(bc).get(l0, []):
+                            if site[0] == 'call' and canon(callee_name(site[2])).endswith(('From::from', 'Into::into', '::from', '::into')) and site[2].get('args'):
+                                src_ty = operand_ty(bc, site[2]['args'][0]) or src_ty
+                            elif site[0] == 'stmt' and site[3] is not None and site[3].get('k') == 'cast':
+                                o_ = site[3].get('op') or site[3].get('a')
+                                if o_ is not None:
+                                    src_ty = operand_ty(bc, o_) or src_ty
+                    if src_ty in INT_RANGES and src_ty not in ('i128', 'u128'):
+                        a_, b_ = INT_RANGES[src_ty]
+                        lo_ = a_ if lo_ is None else min(lo_, a_)
+                        hi_ = b_ if hi_ is None else max(hi_, b_)
+                    else:
+                        unknown = True
+            if unknown or lo_ is None:
+                run.undecided(rule, p, 'constant-outcomes', f'the integer parameter is {ity}, wider than any stored number, and the values its callers pass could not be bounded from their source types: '
+                              'the constant outcomes of this helper are not decided', f'{b.file}:{b.line}')
+                continue
+            tmin, tmax = lo_, hi_
+            ity = f'{ity} restricted to the callers\' arguments'
         ps, _ = explore(b)
         r_atom = ('init', 2, b.name_of(2))
         for q in ps:
@@ -706,14 +756,20 @@ def float_pair_outcomes(ctx, run, rule, cone):
            ('Ge', True): {'gt', 'eq'}, ('Ge', False): {'lt'}, ('Eq', True): {'eq'}, ('Eq', False): {'lt', 'gt'}, ('Ne', True): {'lt', 'gt'}, ('Ne', False): {'eq'}}
     FLIP = {'lt': 'gt', 'gt': 'lt', 'eq': 'eq'}
     n = 0
+    def is_floaty(t):
+        return any((x[0] == 'const' and (str(x[2] if len(x) > 2 else '') == 'f64' or (isinstance(x[1], str) and x[1].startswith('bits:')))) or
+                   (x[0] == 'call' and 'f64::' in canon(x[1])) for x in subterms(t))
     for p in cone:
         b = f.bodies[p]
-        if b.kind == 'Promoted' or b.argc != 2 or '{closure' in p:
+        if b.kind == 'Promoted' or not str(b.local_ty(0).get('s', '')).endswith('cmp::Ordering'):
             continue
-        if str(b.local_ty(1).get('s')) != 'f64' or str(b.local_ty(2).get('s')) != 'f64' or not str(b.local_ty(0).get('s', '')).endswith('cmp::Ordering'):
+        is_closure = '{closure' in p
+        if not is_closure and (b.argc != 2 or str(b.local_ty(1).get('s')) != 'f64' or str(b.local_ty(2).get('s')) != 'f64'):
             continue
         ps, _ = explore(b)
-        a1, a2 = ('init', 1, b.name_of(1)), ('init', 2, b.name_of(2))
+        a1 = a2 = None
+        if not is_closure:
+            a1, a2 = ('init', 1, b.name_of(1)), ('init', 2, b.name_of(2))
         rows = []
         for q in ps:
             if q.end[0] != 'return':
@@ -726,11 +782,13 @@ def float_pair_outcomes(ctx, run, rule, cone):
                 t = c[0]
                 if t[0] == 'bin' and (t[1], c[2]) in REL and c[1] == 'eq':
                     x, y = deref_all(t[2]), deref_all(t[3])
+                    if a1 is None and (is_floaty(x) or is_floaty(y)):
+                        a1, a2 = x, y      # a closure: the pair compared by its first float comparison
                     if (x, y) == (a1, a2):
                         rel &= REL[(t[1], c[2])]
                     elif (x, y) == (a2, a1):
                         rel &= {FLIP[r_] for r_ in REL[(t[1], c[2])]}
-            if rel:
+            if rel and a1 is not None:
                 rows.append((ret[1][2], rel))
         if not rows:
             continue
@@ -745,6 +803,10 @@ def float_pair_outcomes(ctx, run, rule, cone):
         worst = next((v, rel) for v, rel in rows if len(rel) > 1)
         # does a comparator of a *signed* integer with a float reach it?  (for an unsigned one the float is >= 0 and one-sided answers can be right)
         signed = False
+        if is_closure:
+            bb_ = f.bodies.get(p.split('::{closure')[0])
+            if bb_ is not None and bb_.argc == 2 and str(bb_.local_ty(1).get('s')) in ('i64', 'i32', 'i16', 'i8', 'i128', 'isize'):
+                signed = True
         for pc in cone:
             bc = f.bodies[pc]
             base = pc.split('::{closure')[0]
@@ -753,7 +815,7 @@ def float_pair_outcomes(ctx, run, rule, cone):
                 continue
             if any(canon(callee_name(t_)) == canon(p) or canon(callee_name(t_)).endswith('::' + p.split('::')[-1]) for _, t_ in bc.calls()):
                 signed = True
-        msg = (f'answers {worst[0]} on a path where its two floats are only known to be related by {sorted(worst[1])}: it is not an order comparison of its arguments in either '
+        msg = (f'answers {worst[0]} on a path where the two floats it compares ({show(a1)[:40]} and {show(a2)[:40]}) are only known to be related by {sorted(worst[1])}: it is not an order comparison of them in either '
                f'orientation')
         if signed:
             run.violation(rule, p, d, msg + '; a signed-integer/float comparator breaks its tie with it, and for negative floats the fractional part has the other sign '
